@@ -23,6 +23,11 @@ def outbound_oracle(version, routes, ops, timeout, res):
         _, k, uid, action, snake, skip, suppress, send_ok = o
         wire = remove_nones(snake_to_camel_case(snake))
         ind = V.independent_verdict(version, "Call", action, wire)
+        oc = res["outcomes"].get(k) or res["outcomes"].get(str(k))
+        if ind is True and send_ok and oc and oc[0] in ("ocpp", "exc") and list(ids.values()).count(ids[k]) == 1 and \
+                not any(isinstance(fr, list) and len(fr) == 4 and fr[0] == 2 and O.jkey(fr[1]) == O.jkey(ids[k]) for fr in written):
+            bad.append(("valid-call-refused:%s:%s" % (version, action),
+                        "a %s request that satisfies its schema was not written: call() ended with %r" % (action, oc[:2])))
         if ind is False:
             hit = [fr for fr in written if isinstance(fr, list) and len(fr) == 4 and fr[0] == 2 and O.jkey(fr[1]) == O.jkey(ids[k])
                    and fr[2] == action and O.same_value(fr[3], wire)]
@@ -57,7 +62,7 @@ def body_factory(tier, seed):
         dcases += [c for c in g.stratum_kinds() if c[0] in ("bad-res", "malformed-5th")]
         GD.run_cases(rep, dcases, "C04d", PROP, O.c16, view="VC05", kinds=("ok", "bad-res", "malformed-5th"))
         hg = GH.HGen(tier, seed)
-        hs = hg.all()[: (20 if tier == "quick" else 200)]
+        hs = hg.all()[: (32 if tier == "quick" else 200)]
         GH.run_histories(rep, hs, "C04h", PROP, outbound_oracle, "VH04")
         if tier == "thorough":
             import ocpp.messages as M
